@@ -75,7 +75,7 @@ BAD_PROP = {"name": "reserved", "Label": "reserved", "NAME": "reserved", "__x": 
 
 @st.composite
 def _cases(draw):
-    prof = dict(gen.PROFILES["broad"], p_entities=0, p_external=0, max_rows=10, text="plain", p_multilang=0.1, p_logic=0.2)
+    prof = dict(gen.PROFILES["broad"], p_entities=0, p_external=0, max_rows=10, text="plain", p_multilang=0.1, p_logic=0.2, p_params=0.7)
     g = gen.G(draw, prof)
     form = gen.build_form(draw, prof, g=g)
     # list names that contain the words of container types (the save_to placement rule is about rows, not list names)
@@ -89,7 +89,8 @@ def _cases(draw):
                 if len(t) >= 2 and t[1] == old_:
                     t[1] = new_
                     n["c"]["type"] = " ".join(t)
-    qs = [(n, anc) for n, anc in model.walk(form["nodes"]) if n["k"] == "q" and n["c"]["type"].split()[0] in ("text", "integer", "decimal", "select_one", "date")]
+    qs = [(n, anc) for n, anc in model.walk(form["nodes"]) if n["k"] == "q" and n["c"]["type"].split()[0] in ("text", "integer", "decimal", "select_one", "date", "geopoint", "geotrace", "geoshape",
+                                                                                                               "image", "audio", "range", "barcode", "time", "dateTime", "select_multiple")]
     names = [n["c"]["name"] for n, _ in qs] or None
     pat = tuple(g.integer(0, 1) for _ in range(4))
     row = {}
